@@ -1,10 +1,133 @@
 //! Predicates and neutralising transforms of known findings (see known.rs).
+//!
+//! `neutralise(rule, prop, case)` returns the case with the known pattern
+//! removed if - and only if - the rule's predicate holds for the case.
 
 use serde_json::Value as J;
 
-/// If `rule`'s predicate holds for `case`, returns the case with the known
-/// pattern removed; otherwise None.
+use crate::scenario::{Fmt, Scenario};
+
 pub fn neutralise(rule: &str, prop: &str, case: &J) -> Option<J> {
-	let _ = (rule, prop, case);
-	None
+	let _ = prop;
+	match rule {
+		"json_adjacent_scalars" => {
+			// Library-level scenarios: every call whose source is JSON or detection.
+			let mut sc = Scenario::from_json(case)?;
+			let mut changed = false;
+			for c in &mut sc.calls {
+				if matches!(c.from, Some(Fmt::Json) | None) {
+					if let Some(b) = separate_top_level_json_scalars(&c.bytes) {
+						c.bytes = b;
+						changed = true;
+					}
+				}
+			}
+			changed.then(|| sc.to_json())
+		}
+		_ => None,
+	}
+}
+
+/// Inserts a blank after every top-level JSON scalar (number, true, false,
+/// null) that is directly followed by a non-blank byte. Returns None if the
+/// input has no such place.
+pub fn separate_top_level_json_scalars(b: &[u8]) -> Option<Vec<u8>> {
+	let mut out = Vec::with_capacity(b.len() + 4);
+	let mut i = 0;
+	let mut depth = 0usize;
+	let mut changed = false;
+	let n = b.len();
+	while i < n {
+		let c = b[i];
+		match c {
+			b'"' => {
+				let st = i;
+				i += 1;
+				while i < n {
+					match b[i] {
+						b'\\' => i += 2,
+						b'"' => {
+							i += 1;
+							break;
+						}
+						_ => i += 1,
+					}
+				}
+				i = i.min(n);
+				out.extend_from_slice(&b[st..i]);
+			}
+			b'[' | b'{' => {
+				depth += 1;
+				out.push(c);
+				i += 1;
+			}
+			b']' | b'}' => {
+				depth = depth.saturating_sub(1);
+				out.push(c);
+				i += 1;
+			}
+			b't' | b'f' | b'n' | b'-' | b'0'..=b'9' if depth == 0 => {
+				let len = scalar_len(&b[i..]);
+				if len == 0 {
+					out.push(c);
+					i += 1;
+					continue;
+				}
+				out.extend_from_slice(&b[i..i + len]);
+				i += len;
+				if i < n && !matches!(b[i], b' ' | b'\n' | b'\t' | b'\r') {
+					out.push(b' ');
+					changed = true;
+				}
+			}
+			_ => {
+				out.push(c);
+				i += 1;
+			}
+		}
+	}
+	changed.then_some(out)
+}
+
+fn scalar_len(b: &[u8]) -> usize {
+	for kw in [&b"true"[..], b"false", b"null"] {
+		if b.starts_with(kw) {
+			return kw.len();
+		}
+	}
+	// JSON number grammar, greedy.
+	let mut i = 0;
+	let n = b.len();
+	if i < n && b[i] == b'-' {
+		i += 1;
+	}
+	if i >= n || !b[i].is_ascii_digit() {
+		return 0;
+	}
+	if b[i] == b'0' {
+		i += 1;
+	} else {
+		while i < n && b[i].is_ascii_digit() {
+			i += 1;
+		}
+	}
+	if i + 1 < n && b[i] == b'.' && b[i + 1].is_ascii_digit() {
+		i += 1;
+		while i < n && b[i].is_ascii_digit() {
+			i += 1;
+		}
+	}
+	if i < n && (b[i] == b'e' || b[i] == b'E') {
+		let mut j = i + 1;
+		if j < n && (b[j] == b'+' || b[j] == b'-') {
+			j += 1;
+		}
+		if j < n && b[j].is_ascii_digit() {
+			while j < n && b[j].is_ascii_digit() {
+				j += 1;
+			}
+			i = j;
+		}
+	}
+	i
 }
